@@ -191,7 +191,7 @@ def gen_tokenizer(rng, qgram=None):
 def gen_strings_for(rng, ts, n, big=False, missing_p=0.0):
     """join strings suited to tokenizer `ts`"""
     if ts.kind == 'qgram':
-        alpha = rng.choice(['ab', 'abc', 'abcde', 'abé'])
+        alpha = rng.choice(['ab', 'abc', 'abcde', 'abé', 'ab', 'abc', 'abcde', 'abé', 'a0а'])     # 'а' CYRILLIC: see K8
         out = []
         base = [''.join(rng.choice(alpha) for _ in range(rng.randint(0, 10))) for _ in range(max(1, n // 2))]
         for _ in range(n):
@@ -475,7 +475,8 @@ def suite_strings(rng, n, stats):
     cases = []
     lv = Levenshtein()
     for _ in range(n):
-        alpha = rng.choice(['ab', 'abc', 'abcdé', 'a'])
+        # 'а' is CYRILLIC U+0430, whose low byte is that of '0' (known finding K8), '我'/'刑' U+6211/U+5211 likewise
+        alpha = rng.choice(['ab', 'abc', 'abcdé', 'a', 'ab', 'abc', 'a0а', '我刑ab'])
         a = ''.join(rng.choice(alpha) for _ in range(rng.randint(0, 9)))
         b = ''.join(rng.choice(alpha) for _ in range(rng.randint(0, 9)))
         cases.append(({'op': 'lev', 'a': a, 'b': b}, {'ok': int(lv.get_raw_score(a, b))}, None))
@@ -813,6 +814,9 @@ def suite_apply_matcher(rng, n, stats):
         ts_gen = ts or TokSpec('ws')
         # without a tokenizer the raw values go to the (user's) similarity function: what it does with a non-string is its business
         L, R, lk, rk, la, ra = gen_join_frames(rng, ts_gen, stats, nonstring=use_tok)
+        if rng.random() < 0.06 and len(L) and not L[la].isnull().any() and L[la].is_unique and str(L[la].dtype) == 'object':
+            lk = la             # the match attribute is also the key attribute (unique, no missing value)
+            stats.hit('apply_matcher.match_attr_is_key')
         C, clk, crk = gen_candset(rng, L, R, lk, rk, stats)
         L0, R0, la0, ra0 = L, R, la, ra
         L, R, lk, rk, la, ra, C, clk, crk, bad = malform(rng, stats, L, R, lk, rk, la, ra, C, clk, crk, numeric=False)
@@ -945,7 +949,7 @@ from py_stringsimjoin.profiler.profiler import profile_table_for_join           
 
 
 def gen_column(rng, stats):
-    kind = rng.choice(['int', 'float_int', 'float', 'object', 'str', 'float_allnan', 'empty_float', 'empty_object', 'bool', 'float_inf'])
+    kind = rng.choice(['int', 'float_int', 'float', 'object', 'str', 'float_allnan', 'empty_float', 'empty_object', 'bool', 'float_inf', 'float32'])
     n = rng.randint(1, 8)
     nan_p = rng.choice([0.0, 0.3, 0.7])
     if kind == 'int':
@@ -955,6 +959,10 @@ def gen_column(rng, stats):
     elif kind == 'float':
         s = pd.Series([np.nan if rng.random() < nan_p else rng.choice([1.5, 2.0, 0.1, 1e-7, 123456.789, 1e16, -3.25, 7.0]) for _ in range(n)],
                       dtype='float64')
+    elif kind == 'float32':
+        # narrower float dtypes are float columns too (values exactly representable in float16)
+        s = pd.Series([np.nan if rng.random() < nan_p else rng.choice([1.5, 2.0, 0.25, -3.0, 7.0, 1024.0]) for _ in range(n)],
+                      dtype=rng.choice(['float32', 'float16']))
     elif kind == 'float_inf':
         # infinities: never "integral", printed as 'inf' / '-inf'
         pool = rng.choice([[1.0, 2.0, float('inf'), float('-inf')], [1.0, 2.0, 1.5, -3.25, 1e16, float('inf'), float('-inf'), 0.0, 7.0, 1e-7]])
